@@ -7,19 +7,26 @@ import (
 	"math/bits"
 
 	nd "github.com/dolthub/go-mysql-server/internal/zzverifnd"
+	"github.com/dolthub/go-mysql-server/sql"
+	"github.com/dolthub/go-mysql-server/sql/types"
 )
 
 // C25: integer arithmetic is exact or reports out-of-range.
+// Oracles are written with comparisons / math/bits wide arithmetic, not with
+// the operators under test.
 
 func VerifC25PlusInt64() {
 	l, r := nd.Int64("l"), nd.Int64("r")
 	res, err := plus(l, r)
 	nd.Reach("c25.plus.int64")
+	overflow := nd.Or(nd.And(r > 0, l > math.MaxInt64-r), nd.And(r < 0, l < math.MinInt64-r))
 	if err == nil {
 		v, ok := res.(int64)
 		nd.Assert("c25.plus.int64.kind", ok)
-		overflow := nd.Or(nd.And(r > 0, l > math.MaxInt64-r), nd.And(r < 0, l < math.MinInt64-r))
-		nd.Assert("c25.plus.int64.exact", nd.And(!overflow, v == l+r))
+		nd.Assert("c25.plus.int64.overflow-reported", !overflow)
+		nd.Assert("c25.plus.int64.exact", v == l+r)
+	} else {
+		nd.Assert("c25.plus.int64.no-spurious-error", overflow)
 	}
 }
 
@@ -27,11 +34,14 @@ func VerifC25PlusUint64() {
 	l, r := nd.Uint64("l"), nd.Uint64("r")
 	res, err := plus(l, r)
 	nd.Reach("c25.plus.uint64")
+	sum, carry := bits.Add64(l, r, 0)
 	if err == nil {
 		v, ok := res.(uint64)
 		nd.Assert("c25.plus.uint64.kind", ok)
-		_, carry := bits.Add64(l, r, 0)
-		nd.Assert("c25.plus.uint64.exact", nd.And(carry == 0, v == l+r))
+		nd.Assert("c25.plus.uint64.overflow-reported", carry == 0)
+		nd.Assert("c25.plus.uint64.exact", v == sum)
+	} else {
+		nd.Assert("c25.plus.uint64.no-spurious-error", carry != 0)
 	}
 }
 
@@ -39,11 +49,14 @@ func VerifC25MinusInt64() {
 	l, r := nd.Int64("l"), nd.Int64("r")
 	res, err := minus(l, r)
 	nd.Reach("c25.minus.int64")
+	overflow := nd.Or(nd.And(r < 0, l > math.MaxInt64+r), nd.And(r > 0, l < math.MinInt64+r))
 	if err == nil {
 		v, ok := res.(int64)
 		nd.Assert("c25.minus.int64.kind", ok)
-		overflow := nd.Or(nd.And(r < 0, l > math.MaxInt64+r), nd.And(r > 0, l < math.MinInt64+r))
-		nd.Assert("c25.minus.int64.exact", nd.And(!overflow, v == l-r))
+		nd.Assert("c25.minus.int64.overflow-reported", !overflow)
+		nd.Assert("c25.minus.int64.exact", v == l-r)
+	} else {
+		nd.Assert("c25.minus.int64.no-spurious-error", overflow)
 	}
 }
 
@@ -51,30 +64,78 @@ func VerifC25MinusUint64() {
 	l, r := nd.Uint64("l"), nd.Uint64("r")
 	res, err := minus(l, r)
 	nd.Reach("c25.minus.uint64")
+	diff, borrow := bits.Sub64(l, r, 0)
 	if err == nil {
 		v, ok := res.(uint64)
 		nd.Assert("c25.minus.uint64.kind", ok)
-		nd.Assert("c25.minus.uint64.exact", nd.And(l >= r, v == l-r))
+		nd.Assert("c25.minus.uint64.overflow-reported", borrow == 0)
+		nd.Assert("c25.minus.uint64.exact", v == diff)
+	} else {
+		nd.Assert("c25.minus.uint64.no-spurious-error", borrow != 0)
+	}
+}
+
+// signedProductFits computes the exact 128-bit signed product and whether it
+// is representable in int64.
+func signedProductFits(l, r int64) (lo uint64, fits bool) {
+	hi, lo := bits.Mul64(uint64(l), uint64(r))
+	if l < 0 {
+		hi -= uint64(r)
+	}
+	if r < 0 {
+		hi -= uint64(l)
+	}
+	fits = nd.Or(nd.And(hi == 0, int64(lo) >= 0), nd.And(hi == math.MaxUint64, int64(lo) < 0))
+	return lo, fits
+}
+
+// sliceInt64 restricts the left operand to one of the operand slices for
+// which the multiplication queries decide (DESIGN §C25): an 8-bit value, a
+// power of two (either sign), or within 2 of 0, ±2^31, ±2^63.
+func sliceInt64(name string, v int64) {
+	switch nd.Pick(name, 4) {
+	case 0:
+		nd.Assume(nd.And(v >= -128, v <= 127))
+	case 1:
+		nd.Assume(nd.And(v&(v-1) == 0, v != 0))
+	case 2:
+		nd.Assume(nd.And(-v&(-v-1) == 0, v != 0))
+	case 3:
+		d := nd.Int8(name + ".d")
+		nd.Assume(nd.And(d >= -2, d <= 2))
+		b := nd.Pick(name+".base", 5)
+		base := [...]int64{0, 1 << 31, -(1 << 31), math.MaxInt64 - 2, math.MinInt64 + 2}[b]
+		nd.Assume(v == base+int64(d))
 	}
 }
 
 func VerifC25MultInt64() {
 	l, r := nd.Int64("l"), nd.Int64("r")
+	sliceInt64("lslice", l)
 	res, err := mult(l, r)
 	nd.Reach("c25.mult.int64")
+	lo, fits := signedProductFits(l, r)
 	if err == nil {
 		v, ok := res.(int64)
 		nd.Assert("c25.mult.int64.kind", ok)
-		// exact signed 128-bit product from the unsigned one
-		hi, lo := bits.Mul64(uint64(l), uint64(r))
-		if l < 0 {
-			hi -= uint64(r)
-		}
-		if r < 0 {
-			hi -= uint64(l)
-		}
-		fits := nd.Or(nd.And(hi == 0, int64(lo) >= 0), nd.And(hi == math.MaxUint64, int64(lo) < 0))
-		nd.Assert("c25.mult.int64.exact", nd.And(fits, uint64(v) == lo))
+		nd.Assert("c25.mult.int64.overflow-reported", fits)
+		nd.Assert("c25.mult.int64.exact", uint64(v) == lo)
+	} else {
+		nd.Assert("c25.mult.int64.no-spurious-error", !fits)
+	}
+}
+
+// VerifC25MultInt64Wrap is the bug-finding direction at full width: a wrap
+// that is not reported is a cheap sat query even where unsat is not decidable.
+func VerifC25MultInt64Wrap() {
+	l, r := nd.Int64("l"), nd.Int64("r")
+	res, err := mult(l, r)
+	nd.Reach("c25.mult.int64.full")
+	if err == nil {
+		_, fits := signedProductFits(l, r)
+		_, ok := res.(int64)
+		nd.Assert("c25.mult.int64.full.kind", ok)
+		nd.Assert("c25.mult.int64.full.overflow-reported", fits)
 	}
 }
 
@@ -82,10 +143,129 @@ func VerifC25MultUint64() {
 	l, r := nd.Uint64("l"), nd.Uint64("r")
 	res, err := mult(l, r)
 	nd.Reach("c25.mult.uint64")
+	hi, lo := bits.Mul64(l, r)
 	if err == nil {
 		v, ok := res.(uint64)
 		nd.Assert("c25.mult.uint64.kind", ok)
-		hi, lo := bits.Mul64(l, r)
-		nd.Assert("c25.mult.uint64.exact", nd.And(hi == 0, v == lo))
+		nd.Assert("c25.mult.uint64.overflow-reported", hi == 0)
+		nd.Assert("c25.mult.uint64.exact", v == lo)
+	} else {
+		nd.Assert("c25.mult.uint64.no-spurious-error", hi != 0)
+	}
+}
+
+func VerifC25IntDivInt64() {
+	l, r := nd.Int64("l"), nd.Int64("r")
+	res, err := intDiv(nil, l, r)
+	nd.Reach("c25.intdiv.int64")
+	if r == 0 {
+		nd.Assert("c25.intdiv.int64.by-zero-null", nd.And(res == nil, err == nil))
+		return
+	}
+	overflow := nd.And(l == math.MinInt64, r == -1)
+	if err == nil {
+		_, ok := res.(int64)
+		nd.Assert("c25.intdiv.int64.kind", ok)
+		nd.Assert("c25.intdiv.int64.overflow-reported", !overflow)
+	} else {
+		nd.Assert("c25.intdiv.int64.no-spurious-error", overflow)
+	}
+}
+
+// Exactness of the quotient: 64-bit symbolic-by-symbolic division does not
+// decide on any back-end (DESIGN §2), so the divisor is enumerated concretely
+// (|r| <= 4, thorough 12) and the dividend is symbolic with |l| < 2^15
+// (thorough 2^31); the quotient is checked by the defining inequalities.
+func VerifC25IntDivInt64Exact() {
+	rb := nd.Bound(4, 12)
+	r := int64(nd.IntRange("r", -rb, rb))
+	nd.Assume(r != 0)
+	l := nd.Int64("l")
+	lb := int64(nd.Bound(1<<15, 1<<31))
+	nd.Assume(nd.And(l >= -lb, l < lb))
+	res, err := intDiv(nil, l, r)
+	nd.Reach("c25.intdiv.int64.exact")
+	nd.Assert("c25.intdiv.int64.small.no-error", err == nil)
+	q, ok := res.(int64)
+	nd.Assert("c25.intdiv.int64.small.kind", ok)
+	nd.Assert("c25.intdiv.int64.small.magnitude", nd.And(q >= -lb, q <= lb))
+	rem := l - q*r
+	absLess := nd.Or(nd.And(r > 0, nd.And(rem < r, rem > -r)), nd.And(r < 0, nd.And(rem > r, rem < -r)))
+	nd.Assert("c25.intdiv.int64.small.remainder-small", absLess)
+	nd.Assert("c25.intdiv.int64.small.remainder-sign", nd.Or(rem == 0, (rem < 0) == (l < 0)))
+}
+
+func VerifC25IntDivUint64() {
+	l, r := nd.Uint64("l"), nd.Uint64("r")
+	res, err := intDiv(nil, l, r)
+	nd.Reach("c25.intdiv.uint64")
+	if r == 0 {
+		nd.Assert("c25.intdiv.uint64.by-zero-null", nd.And(res == nil, err == nil))
+		return
+	}
+	nd.Assert("c25.intdiv.uint64.no-error", err == nil)
+	q, ok := res.(uint64)
+	nd.Assert("c25.intdiv.uint64.kind", ok)
+	if nd.And(l < uint64(nd.Bound(256, 4096)), r < 256) {
+		lo := q * r
+		nd.Assert("c25.intdiv.uint64.small.floor", nd.And(q <= l, nd.And(lo <= l, l-lo < r)))
+	}
+}
+
+func VerifC25UnaryMinus() {
+	v := nd.Int64("v")
+	null := nd.Bool("null")
+	var cell interface{} = v
+	if null {
+		cell = nil
+	}
+	e := NewUnaryMinus(NewGetField(0, types.Int64, "x", true))
+	res, err := e.Eval(nil, sql.Row{cell})
+	nd.Reach("c25.neg.int64")
+	if null {
+		nd.Assert("c25.neg.null", nd.And(res == nil, err == nil))
+		return
+	}
+	if err == nil {
+		n, ok := res.(int64)
+		nd.Assert("c25.neg.kind", ok)
+		nd.Assert("c25.neg.overflow-reported", v != math.MinInt64)
+		nd.Assert("c25.neg.exact", nd.And(n+v == 0, (n < 0) != (v < 0) || v == 0))
+	} else {
+		nd.Assert("c25.neg.no-spurious-error", v == math.MinInt64)
+	}
+}
+
+// End to end through Arithmetic.Eval with typed columns: conversion of the
+// operands to the result type followed by the kernels above.
+func VerifC25EvalInt64Columns() {
+	l, r := nd.Int64("l"), nd.Int64("r")
+	op := nd.Pick("op", 3)
+	var e *Arithmetic
+	lf, rf := NewGetField(0, types.Int64, "l", false), NewGetField(1, types.Int64, "r", false)
+	switch op {
+	case 0:
+		e = NewPlus(lf, rf)
+	case 1:
+		e = NewMinus(lf, rf)
+	default:
+		e = NewMult(lf, rf)
+		sliceInt64("lslice", l)
+	}
+	res, err := e.Eval(nil, sql.Row{l, r})
+	nd.Reach("c25.eval.int64")
+	if err != nil {
+		return
+	}
+	v, ok := res.(int64)
+	nd.Assert("c25.eval.kind", ok)
+	switch op {
+	case 0:
+		nd.Assert("c25.eval.plus", nd.And(v == l+r, !nd.Or(nd.And(r > 0, l > math.MaxInt64-r), nd.And(r < 0, l < math.MinInt64-r))))
+	case 1:
+		nd.Assert("c25.eval.minus", nd.And(v == l-r, !nd.Or(nd.And(r < 0, l > math.MaxInt64+r), nd.And(r > 0, l < math.MinInt64+r))))
+	default:
+		lo, fits := signedProductFits(l, r)
+		nd.Assert("c25.eval.mult", nd.And(fits, uint64(v) == lo))
 	}
 }
